@@ -18,6 +18,7 @@ package build
 
 import (
 	"fmt"
+	"go/ast"
 	"io"
 	"os"
 	"os/exec"
@@ -27,6 +28,7 @@ import (
 	"strings"
 
 	"github.com/goplus/llgo/internal/env"
+	"github.com/goplus/llgo/internal/goembed"
 	"github.com/goplus/llgo/internal/packages"
 	gopackages "golang.org/x/tools/go/packages"
 )
@@ -169,6 +171,14 @@ func (c *context) collectPackageInputs(m *manifestBuilder, pkg *aPackage) error 
 		m.pkg.OtherFiles = otherList
 	}
 
+	// Files matched by //go:embed directives: buildPkg compiles their content
+	// into the package, so the content is part of the fingerprint.
+	embedList, err := c.digestEmbedFiles(pkg)
+	if err != nil {
+		return err
+	}
+	m.pkg.EmbedFiles = embedList
+
 	// Rewrite vars
 	if len(pkg.rewriteVars) > 0 {
 		rewrites := make(map[string]string, len(pkg.rewriteVars))
@@ -182,6 +192,42 @@ func (c *context) collectPackageInputs(m *manifestBuilder, pkg *aPackage) error 
 	// (LINK_ARGS/NEED_RT/NEED_PY_INIT are appended later in saveToCache)
 
 	return nil
+}
+
+// digestEmbedFiles resolves the //go:embed directives of the package (and of
+// its alt package) exactly as buildPkg does and digests every matched file by
+// content, keyed by the embedding variable and the file's relative name.
+func (c *context) digestEmbedFiles(pkg *aPackage) ([]fileDigest, error) {
+	if c.conf == nil || c.conf.Fset == nil {
+		return nil, nil
+	}
+	syntax := pkg.Syntax
+	if pkg.AltPkg != nil {
+		syntax = append(append([]*ast.File(nil), syntax...), pkg.AltPkg.Syntax...)
+	}
+	if len(syntax) == 0 {
+		return nil, nil
+	}
+	embedMap, err := goembed.LoadDirectives(c.conf.Fset, syntax)
+	if err != nil {
+		return nil, fmt.Errorf("load go:embed directives for %s: %w", pkg.PkgPath, err)
+	}
+	names := make([]string, 0, len(embedMap))
+	for name := range embedMap {
+		names = append(names, name)
+	}
+	sort.Strings(names)
+	var digests []fileDigest
+	for _, name := range names {
+		for _, f := range embedMap[name].Files {
+			digests = append(digests, fileDigest{
+				Path: name + ":" + f.Name,
+				Size: int64(len(f.Data)),
+				Hash: digestBytes(f.Data),
+			})
+		}
+	}
+	return digests, nil
 }
 
 // collectDependencyInputs adds dependency fingerprints/versions into manifest.
